@@ -324,6 +324,15 @@ def _run(eng, world, contracts, qual, res, timeout_ms, concretise, keep_smt, onl
             res.obligations.append(orr)
         else:
             res.obligations.append(ObResult(ob.name, ob.kind, 'unknown', dt, reason=solver.reason_unknown()))
+            # z3 often leaves a candidate model behind when it gives up; it proves nothing, but it is a cheap
+            # source of inputs for the native replay, which is decisive either way (runner: candidate replay)
+            if concretise is not None:
+                try:
+                    cand = solver.model()
+                    cm = concretise(eng, cx, ob, cand)
+                    res.counterexamples.append((ob.name, cm, dict(_model_text(cand, args), candidate=True)))
+                except Exception:
+                    pass
         if keep_smt and len(res.samples) < 2 and ob.kind in ('ensures', 'inv-preserved'):
             s = z3.Solver()
             s.add(ob.hyps)
